@@ -6,6 +6,8 @@ from .mir import MirError, INT_TY, SIGNED, split_top, strip_generics
 
 sys.setrecursionlimit(20000)
 _cnt = itertools.count(1)
+import os
+TRACE = bool(os.environ.get('MIRSYM_TRACE'))
 
 
 def nid():
@@ -489,7 +491,7 @@ class Engine:
             if op == 'Eq': return a == b
             a, b = self.to_bv(a), self.to_bv(b)
         if not (z3.is_bv(a) and z3.is_bv(b)):
-            if op in ('Eq', 'Ne') and a == () and b == ():
+            if op in ('Eq', 'Ne') and isinstance(a, tuple) and isinstance(b, tuple) and a == () and b == ():
                 return z3.BoolVal(op == 'Eq')
             raise MirError(f'binop {op} on {a!r}, {b!r}')
         if a.size() != b.size():
@@ -707,25 +709,37 @@ class Engine:
         m = re.search(r'<impl at ([^>]+)>', name)
         return self.impls.info(m.group(1)) if m else (None, None)
 
-    def resolve_fn(self, callee, nargs):
-        key = (callee, nargs)
+    def resolve_fn(self, callee, nargs, caller_crate=None):
+        """caller_crate: crate of the function containing the call (its own items are printed without the crate prefix)"""
+        pref = getattr(self, 'crate_prefixes', {}).get(caller_crate) if caller_crate else None
+        key = (callee, nargs, pref)
         if key in self.resolve_cache:
             return self.resolve_cache[key]
-        r = self._resolve_fn(callee, nargs)
+        r = None
+        if pref:
+            r = self._resolve_fn(callee, nargs, only_prefix=pref)
+        if r is None:
+            r = self._resolve_fn(callee, nargs)
         self.resolve_cache[key] = r
         return r
 
-    def _resolve_fn(self, callee, nargs):
+    def _resolve_fn(self, callee, nargs, only_prefix=None):
         c = strip_generics_tail(callee)
-        if c in self.fns:
+        if only_prefix is None and c in self.fns:
             return c
+        if only_prefix is not None:
+            if only_prefix + c in self.fns:
+                return only_prefix + c
+            by_last = {k: [n for n in v if n.startswith(only_prefix)] for k, v in ((c.split('::')[-1], self.by_last.get(c.split('::')[-1], [])),)}
+        else:
+            by_last = self.by_last
         # <T as Trait>::method
         m = re.match(r'^<(.+) as (.+)>::(\w+)$', c)
         if m:
             selfty, trait, meth = type_head(m.group(1)).split('::')[-1], strip_generics(m.group(2)), m.group(3)
             tlast = trait.split('::')[-1]
             cands = []
-            for n in self.by_last.get(meth, []):
+            for n in by_last.get(meth, []):
                 if '<impl at' in n:
                     tr, ty = self.impl_self(n)
                     if tr == tlast and ty == selfty:
@@ -738,20 +752,20 @@ class Engine:
                     return c2[0]
                 raise MirError(f'ambiguous impl for {callee}: {cands[:4]}')
             # provided trait method
-            cands = [n for n in self.by_last.get(meth, []) if '<impl at' not in n and suffix_match(n, trait + '::' + meth)]
+            cands = [n for n in by_last.get(meth, []) if '<impl at' not in n and suffix_match(n, trait + '::' + meth)]
             if len(cands) == 1:
                 return cands[0]
             return None
         # Type::method (inherent) or module::function
         segs = strip_generics(c).split('::')
         meth = segs[-1]
-        cands = [n for n in self.by_last.get(meth, []) if '<impl at' not in n and suffix_match(n, strip_generics(c))]
+        cands = [n for n in by_last.get(meth, []) if '<impl at' not in n and suffix_match(n, strip_generics(c))]
         if len(cands) == 1:
             return cands[0]
         if len(segs) >= 2:
             ty = segs[-2]
             cands = []
-            for n in self.by_last.get(meth, []):
+            for n in by_last.get(meth, []):
                 if '<impl at' in n:
                     tr, t = self.impl_self(n)
                     if tr is None and t == ty:
@@ -911,14 +925,15 @@ class Engine:
         r = self.models.dispatch(ctx)
         if r is not None:
             return self.apply(ctx, r)
-        tgt = self.resolve_fn(callee, len(args))
+        cc = fr.fn.crate
+        tgt = self.resolve_fn(callee, len(args), cc)
         if not tgt:
             m = re.match(r'^<([A-Z]\w{0,12}) as (.+)>::(\w+)', strip_generics_tail(callee))
             if m and args:
                 recv = self.deref_val(st, args[0])
                 rty = type_head(recv.ty).split('::')[-1] if isinstance(recv, Obj) and recv.ty else None
                 if rty:
-                    tgt = self.resolve_fn(f'<{rty} as {m.group(2)}>::{m.group(3)}', len(args))
+                    tgt = self.resolve_fn(f'<{rty} as {m.group(2)}>::{m.group(3)}', len(args), cc)
         if tgt:
             self.push(st, tgt, args, dest, nxt)
             return True
@@ -953,6 +968,8 @@ class Engine:
                 raise Inconclusive('step budget exhausted')
             fr = st.frame()
             stmts = fr.fn.blocks[fr.bb]
+            if TRACE:
+                print('  ' * min(len(st.frames), 30) + f'{fr.fn.name[-50:]}:{fr.bb} | {stmts[-1][:130]}', file=sys.stderr)
             for s in stmts[:-1]:
                 self.stmt(st, s, fr)
             term = mir.parse_term(stmts[-1])
@@ -1112,7 +1129,10 @@ def _subseq(a, b):
 
 
 def suffix_match(name, pat):
-    return name == pat or name.endswith('::' + pat) or pat.endswith('::' + name)
+    """trimmed-path agreement: one is a `::`-boundary suffix of the other; a single-segment definition name only matches a single-segment callee"""
+    if name == pat or name.endswith('::' + pat):
+        return True
+    return '::' in name and pat.endswith('::' + name)
 
 
 def strip_generics_tail(callee):
